@@ -448,12 +448,14 @@ pub fn frames(tier: Tier) -> Vec<Seed> {
         v.push(seeds::windowed(true, 10));
         let mut data = vec![];
         let mut i = 0u32;
-        while data.len() < 300_000 {
+        // (300 KB / windowLog 14 was measured once: 2.5 M states in 75 minutes and still not closed - every replay
+        // decodes up to the whole frame)
+        while data.len() < 40_000 {
             data.extend_from_slice(format!("row {} col {} val {}\n", i % 977, i % 13, i.wrapping_mul(2654435761) % 1000).as_bytes());
             i += 1;
         }
-        let f = crate::refz::compress(&data, &crate::refz::CParams { level: 3, window_log: Some(14), checksum: true, ..Default::default() }, None).unwrap();
-        v.push(Seed { name: "libzstd level 3, 300 KB, windowLog 14".into(), frame: f, plain: data });
+        let f = crate::refz::compress(&data, &crate::refz::CParams { level: 3, window_log: Some(12), checksum: true, ..Default::default() }, None).unwrap();
+        v.push(Seed { name: "libzstd level 3, 40 KB, windowLog 12".into(), frame: f, plain: data });
     }
     v
 }
@@ -495,7 +497,7 @@ pub fn explore(run: &mut Run, tier: Tier, prop: &str) -> Totals {
     fn is_not_c08(m: &str) -> bool {
         !m.contains("[C08]")
     }
-    let caps = Caps { max_wall_s: tier.pick(150.0, 2400.0), max_states: tier.pick(3_000_000, 30_000_000), not_mine: Some(if prop == "C08" { is_not_c08 } else { is_c08 }), ..Caps::default() };
+    let caps = Caps { max_wall_s: tier.pick(150.0, 1500.0), max_states: tier.pick(3_000_000, 30_000_000), not_mine: Some(if prop == "C08" { is_not_c08 } else { is_c08 }), ..Caps::default() };
     let mut systems: Vec<DriveSys> = vec![];
     for s in frames(tier) {
         let big = s.frame.len() > 20_000;
